@@ -143,6 +143,7 @@ type explorer struct {
 	maxSt   int
 	maxRes  int
 	tracker *sessionTracker
+	cw      *lineWriter // contact trace (C03/C06), optional
 	onLine  func(line *TLine, s flows.Session, sp flows.Sprint, before []byte)
 }
 
@@ -213,6 +214,7 @@ func (x *explorer) explore(sessJSON []byte, script []json.RawMessage, off int, h
 			}
 		}
 		x.tracker.before(s)
+		cbefore := projContact(s.Contact())
 		before := sessionJSON(s)
 		impossible := resumeImpossible(s, x.maxRes)
 		var sp flows.Sprint
@@ -238,6 +240,10 @@ func (x *explorer) explore(sessJSON []byte, script []json.RawMessage, off int, h
 		}
 		h := hist + c.tag
 		x.emit("resume", kind, h, s, sp, cerr, pan, same, impossible, acc, before)
+		if x.cw != nil && cerr == nil && s.Contact() != nil {
+			cl := sprintLine(x.fx.name+"|"+h, nil, x.sa, cbefore, s, sp, canonTime(res.ResumedOn().Format(time.RFC3339Nano)), pan)
+			x.cw.write(cl.Src, cl, func(v string) { cl.Src = v })
+		}
 		if pan != "" {
 			continue
 		}
@@ -253,7 +259,7 @@ func (x *explorer) explore(sessJSON []byte, script []json.RawMessage, off int, h
 	}
 }
 
-func runFixture(fx *fixture, lw *lineWriter, seed int64, offDepth int, maxSt, maxRes int, onLine func(line *TLine, s flows.Session, sp flows.Sprint, before []byte)) (calls int, err error) {
+func runFixture(fx *fixture, lw *lineWriter, cw *lineWriter, seed int64, offDepth int, maxSt, maxRes int, onLine func(line *TLine, s flows.Session, sp flows.Sprint, before []byte)) (calls int, err error) {
 	uuids.SetGenerator(uuids.NewSeededGenerator(123456, time.Now))
 	dates.SetNowFunc(dates.NewSequentialNow(time.Date(2018, 7, 6, 12, 30, 0, 123456789, time.UTC), time.Second))
 	smtpx.SetSender(okSender{})
@@ -273,7 +279,7 @@ func runFixture(fx *fixture, lw *lineWriter, seed int64, offDepth int, maxSt, ma
 		return 0, err
 	}
 	eng := fixtureEngine(maxSt, maxRes)
-	x := &explorer{eng: eng, sa: sa, fx: fx, lw: lw, rnd: rand.New(rand.NewSource(seed)), maxSt: eng.Options().MaxStepsPerSprint, maxRes: eng.Options().MaxResumesPerSession, tracker: newTracker(), onLine: onLine}
+	x := &explorer{eng: eng, sa: sa, fx: fx, lw: lw, rnd: rand.New(rand.NewSource(seed)), maxSt: eng.Options().MaxStepsPerSprint, maxRes: eng.Options().MaxResumesPerSession, tracker: newTracker(), onLine: onLine, cw: cw}
 	x.tracker.before(nil)
 	var s flows.Session
 	var sp flows.Sprint
@@ -288,6 +294,10 @@ func runFixture(fx *fixture, lw *lineWriter, seed int64, offDepth int, maxSt, ma
 		s, sp, cerr = eng.NewSession(sa, trig)
 	}()
 	x.emit("start", trig.Type(), "", s, sp, cerr, pan, false, false, 0, nil)
+	if cw != nil && cerr == nil && trig.Contact() != nil && (pan != "" || s.Contact() != nil) {
+		cl := sprintLine(fx.name+"|", nil, sa, projContact(trig.Contact()), s, sp, canonTime(trig.TriggeredOn().Format(time.RFC3339Nano)), pan)
+		cw.write(cl.Src, cl, func(v string) { cl.Src = v })
+	}
 	if pan != "" || cerr != nil || s == nil {
 		return x.calls, nil
 	}
@@ -309,7 +319,19 @@ func engFixtures(args []string) error {
 	off := fs.Int("off", 1, "off-script depth")
 	limits := fs.Bool("limits", false, "also run with small random engine limits (C05)")
 	only := fs.String("only", "", "only this fixture")
+	cout := fs.String("contact", "", "also write the contact trace (C03/C06) here")
 	fs.Parse(args)
+	var cw *lineWriter
+	if *cout != "" {
+		var cf *os.File
+		var err error
+		cw, cf, err = newLineWriter(*cout)
+		if err != nil {
+			return err
+		}
+		defer cf.Close()
+		defer func() { cw.w.Flush() }()
+	}
 
 	fxs, err := loadFixtures(*dir)
 	if err != nil {
@@ -332,7 +354,7 @@ func engFixtures(args []string) error {
 		if i%*nshards != *shard || (*only != "" && fx.name != *only) {
 			continue
 		}
-		n, err := runFixture(fx, lw, *seed+int64(i), *off, ms, mr, nil)
+		n, err := runFixture(fx, lw, cw, *seed+int64(i), *off, ms, mr, nil)
 		if err != nil {
 			errs = append(errs, fx.name+": "+err.Error())
 			continue
